@@ -808,6 +808,13 @@ def execute(h):
                 o = observe(lambda: ('ok', convs[ci].update(
                     mk_validity(op[2]), container)))
                 accepted = o[0] == 'ok'
+                # the caller goes on using (and changing) what it handed
+                # over: the converter must have taken its own copy
+                for sp in lib_specs:
+                    if isinstance(sp, list):
+                        sp[1] = 'garbage'
+                        sp[2] = 0
+                del lib_specs[:]
                 if pv is None:
                     bump(faults, 'invalid_validity')
                 elif not must_accept:
